@@ -297,6 +297,10 @@ def handleC18 (op : String) (j : Json) : R Json := do
     let (ok, sw) := go (data.length + 1) data (fun _ => none) []
     let ok2 := (getConstants (data.length + 1) data (fun _ => none)).isSome
     pure <| obj [("ok", Json.bool (ok && ok2)), ("sweeps", Json.arr (sw.map (fun l => Json.arr (l.map Json.str).toArray)).toArray)]
+  | "first_free" =>
+    -- setupSave without a folder name: the index of the folder it creates, given the indices of the existing simulation_<i> directories
+    let ex ← fNatList j "existing"
+    pure <| obj [("index", match firstFree (fun i => ex.contains i) (ex.length + 2 + ex.foldl max 0) 0 with | some k => toJson k | none => Json.null)]
   | "constants_rp" =>
     -- literal values are integers (the harness scales dyadic values so that the middle of two of them is an integer);
     -- an expression is the sum of the constants it names plus an integer
@@ -325,7 +329,7 @@ def handleC18 (op : String) (j : Json) : R Json := do
 def handle (j : Json) : R Json := do
   let op ← fStr j "op"
   match op with
-  | "roundtrip" | "names" | "constants" | "constants_rp" | "loop" => handleC18 op j
+  | "roundtrip" | "names" | "constants" | "constants_rp" | "first_free" | "loop" => handleC18 op j
   | _ => handleC17 op j
 
 def main : IO Unit := serve handle
